@@ -38,6 +38,25 @@ Definition modelled_spawn_writers : list string := ["VMF.__init__"; "VMF.parse"]
 Definition all_spawn_writers_modelled : bool :=
   forallb (fun w : string * string => mem (fst w) modelled_spawn_writers) spawn_writers.
 
+(** where the folded value of an index update comes from: the classname for by_class and the targetname for
+    by_target, read through Entity.__getitem__ (case-insensitive) from the very entity that is filed; in
+    Entity.__setitem__ the previous value for the removal and the new value for the addition; in an Entity
+    method the update sits in the branch about that keyvalue and files [self] *)
+Definition key_source_ok (s : string * string * bool * keysrc * string * string) : bool :=
+  let '(fn, ix, add, src, ent, br) := s in
+  let want := if String.eqb ix "by_class" then "classname" else "targetname" in
+  (match src with
+   | SGet k e => String.eqb k want && String.eqb e ent
+   | SOrig => String.eqb fn "Entity.__setitem__" && negb add
+   | SNew => String.eqb fn "Entity.__setitem__" && add
+   | SLitKey => true
+   | SOther => false
+   end)
+  && (if String.prefix "Entity." fn then String.eqb br want && String.eqb ent "self" else true).
+Definition key_sources_ok_in (f : string) : bool :=
+  forallb (fun s : string * string * bool * keysrc * string * string =>
+             let '(fn, _, _, _, _, _) := s in negb (String.eqb fn f) || key_source_ok s) index_key_sources.
+
 Definition site_fn (s : string * string * bool * keyclass * bool) : string := fst (fst (fst (fst s))).
 Definition site_ix (s : string * string * bool * keyclass * bool) : string := snd (fst (fst (fst s))).
 Definition site_add (s : string * string * bool * keyclass * bool) : bool := snd (fst (fst s)).
